@@ -1,6 +1,6 @@
 (* The "failed read/write is followed by onClosed" monitor accepts every log the model can produce. *)
 From Coq Require Import ZArith List Bool Lia.
-From ServerLoop Require Import ServerLoopSpec ServerLoopModel ServerLoopBase ServerLoopInv.
+From ServerLoop Require Import ServerLoopSpec ServerLoopModel ServerLoopBase ServerLoopInv ServerLoopCb.
 Import ListNotations.
 Local Open Scope Z_scope.
 
@@ -9,17 +9,27 @@ Ltac dmatch :=
          | |- context [match ?x with _ => _ end] => destruct x eqn:?
          end.
 
-(* the clients the monitor still expects an onClosed for are related to the closing set by P *)
-Definition CplCg (P : Z -> list Z -> Prop) (s : state) : Prop :=
-  exists m, cmon_run (trace s) = Some m /\ c_must m = None /\ forall j, In j (c_owed m) -> P j (closing s).
-Definition PIn (j : Z) (cl : list Z) : Prop := In j cl.                       (* the coupling proper *)
-Definition PEx (i j : Z) (cl : list Z) : Prop := j <> i -> In j cl.           (* ... except for client i *)
-Definition PNot (i j : Z) (cl : list Z) : Prop := j <> i /\ In j cl.          (* ... and i is not owed *)
+(* zb j: remove() was called for client j while it was being announced (it is deleted when that callback returns) *)
+Definition zb (j : Z) (cs : list (Z * client)) : bool :=
+  match alookup Z.eqb j cs with Some c => c_rm c | None => false end.
+
+(* the clients the monitor still expects an onClosed for are related by P to the closing set and to being removed *)
+Definition CplCg (P : Z -> list Z -> bool -> Prop) (s : state) : Prop :=
+  exists m, cmon_run (trace s) = Some m /\ c_must m = None /\ forall j, In j (c_owed m) -> P j (closing s) (zb j (clients s)).
+Definition PIn (j : Z) (cl : list Z) (z : bool) : Prop := In j cl /\ z = false.            (* the coupling proper *)
+Definition PEx (i j : Z) (cl : list Z) (z : bool) : Prop := j <> i -> In j cl /\ z = false.  (* ... except for client i *)
+Definition PNot (i j : Z) (cl : list Z) (z : bool) : Prop := j <> i /\ In j cl /\ z = false.  (* ... and i is not owed *)
 Notation CplC := (CplCg PIn).
+
+(* all three only get easier when a client stops being "removed" *)
+Definition antiz (P : Z -> list Z -> bool -> Prop) : Prop := forall j cl, P j cl true -> P j cl false.
+Lemma antiz_PIn : antiz PIn. Proof. intros j cl [_ H]. discriminate. Qed.
+Lemma antiz_PEx i : antiz (PEx i). Proof. intros j cl H N. destruct (H N) as [_ C]. discriminate. Qed.
+Lemma antiz_PNot i : antiz (PNot i). Proof. intros j cl [_ [_ H]]. discriminate. Qed.
 
 Definition cirr (e : ev) : bool :=
   match e with
-  | EvRecv _ _ | EvSend _ _ _ _ | EvCb (Cl _) KClosed _ | EvCb _ KRead _ | EvRemoved (Cl _) | EvIntroRet _ false
+  | EvRecv _ _ | EvSend _ _ _ _ | EvCb (Cl _) KClosed _ | EvCb _ KRead _ | EvRemoved (Cl _) | EvDeferred (Cl _) | EvIntroRet _ false
   | EvWait _ | EvRunRet | EvAccept _ _ | EvSoErr _ _ => false
   | _ => true
   end.
@@ -31,10 +41,28 @@ Proof.
   - destruct e; try reflexivity; destruct k; try reflexivity; discriminate.
   - destruct acc; [reflexivity | discriminate].
   - destruct e; try reflexivity; discriminate.
+  - destruct e; try reflexivity; discriminate.
 Qed.
 
-Lemma CplC_frame P s s' : trace s' = trace s -> closing s' = closing s -> CplCg P s -> CplCg P s'.
-Proof. intros E1 E2 [m H]. exists m. rewrite E1, E2. exact H. Qed.
+Lemma CplC_frame P s s' : trace s' = trace s -> closing s' = closing s -> clients s' = clients s -> CplCg P s -> CplCg P s'.
+Proof. intros E1 E2 E3 [m H]. exists m. rewrite E1, E2, E3. exact H. Qed.
+
+(* the general form: the log is the same, what is owed is related by Q to the new state *)
+Lemma CplC_change (P Q : Z -> list Z -> bool -> Prop) s s' :
+  trace s' = trace s ->
+  (forall j, P j (closing s) (zb j (clients s)) -> Q j (closing s') (zb j (clients s'))) ->
+  CplCg P s -> CplCg Q s'.
+Proof. intros E W [m [A [B C]]]. exists m. rewrite E. auto. Qed.
+
+(* clients only stop being "removed" *)
+Lemma CplC_zanti (P : Z -> list Z -> bool -> Prop) s s' :
+  antiz P -> trace s' = trace s -> closing s' = closing s ->
+  (forall j, zb j (clients s') = true -> zb j (clients s) = true) -> CplCg P s -> CplCg P s'.
+Proof.
+  intros HA E1 E2 Z. apply CplC_change; [exact E1|]. intros j. rewrite E2. specialize (Z j).
+  destruct (zb j (clients s')); [rewrite Z by reflexivity; auto|].
+  destruct (zb j (clients s)); [apply HA | auto].
+Qed.
 
 Lemma CplC_log P e s : cirr e = true -> CplCg P s -> CplCg P (log e s).
 Proof.
@@ -42,13 +70,12 @@ Proof.
   split; [apply cmon_step_irr; assumption | auto].
 Qed.
 
-Ltac cframe := (eapply CplC_frame; [| |eassumption]; reflexivity).
+Ltac cframe := (eapply CplC_frame; [| | |eassumption]; reflexivity).
 Lemma CplC_set_clk n v s : CplCg n s -> CplCg n (set_clk v s). Proof. intros; cframe. Qed.
 Lemma CplC_set_queue n v s : CplCg n s -> CplCg n (set_queue v s). Proof. intros; cframe. Qed.
 Lemma CplC_set_timers n v s : CplCg n s -> CplCg n (set_timers v s). Proof. intros; cframe. Qed.
 Lemma CplC_set_listeners n v s : CplCg n s -> CplCg n (set_listeners v s). Proof. intros; cframe. Qed.
 Lemma CplC_set_estabs n v s : CplCg n s -> CplCg n (set_estabs v s). Proof. intros; cframe. Qed.
-Lemma CplC_set_clients n v s : CplCg n s -> CplCg n (set_clients v s). Proof. intros; cframe. Qed.
 Lemma CplC_set_socks n v s : CplCg n s -> CplCg n (set_socks v s). Proof. intros; cframe. Qed.
 Lemma CplC_set_selected n v s : CplCg n s -> CplCg n (set_selected v s). Proof. intros; cframe. Qed.
 Lemma CplC_set_intr n v s : CplCg n s -> CplCg n (set_intr v s). Proof. intros; cframe. Qed.
@@ -66,7 +93,7 @@ Lemma CplC_drop_accept n s : CplCg n s -> CplCg n (drop_accept s). Proof. intros
 Lemma CplC_drop_conn n s : CplCg n s -> CplCg n (drop_conn s). Proof. intros; cframe. Qed.
 
 Create HintDb cplC.
-#[export] Hint Resolve CplC_log CplC_set_clk CplC_set_queue CplC_set_timers CplC_set_listeners CplC_set_estabs CplC_set_clients
+#[export] Hint Resolve CplC_log CplC_set_clk CplC_set_queue CplC_set_timers CplC_set_listeners CplC_set_estabs
   CplC_set_socks CplC_set_selected CplC_set_intr CplC_set_evcount CplC_set_used CplC_set_scripts CplC_set_sendq CplC_set_recvq
   CplC_set_acceptq CplC_set_connq CplC_set_stuck CplC_drop_send CplC_drop_recv CplC_drop_accept CplC_drop_conn : cplC.
 #[export] Hint Extern 1 (cirr _ = true) => reflexivity : cplC.
@@ -78,55 +105,93 @@ Proof. intros H. unfold poll_set. cauto_cpl. Qed.
 Lemma CplC_poll_remove n e s : CplCg n s -> CplCg n (poll_remove e s).
 Proof. intros H. unfold poll_remove. cauto_cpl. Qed.
 #[export] Hint Resolve CplC_poll_set CplC_poll_remove : cplC.
+Lemma zb_app j l i c : c_rm c = false -> zb j (l ++ [(i, c)]) = zb j l.
+Proof.
+  intros Hc. unfold zb. rewrite alookup_app. destruct (alookup Z.eqb j l); [reflexivity|].
+  cbn [alookup]. destruct (i =? j); [exact Hc | reflexivity].
+Qed.
+Lemma zb_aset_eq i c l : zb i (aset Z.eqb i c l) = c_rm c.
+Proof. unfold zb. rewrite alookup_aset_eq by apply zeq. reflexivity. Qed.
+Lemma zb_aset_neq i j c l : j <> i -> zb j (aset Z.eqb i c l) = zb j l.
+Proof. intros N. unfold zb. rewrite alookup_aset_neq by (try apply zeq; exact N). reflexivity. Qed.
+Lemma zb_aremove_neq i j l : j <> i -> zb j (aremove Z.eqb i l) = zb j l.
+Proof. intros N. unfold zb. rewrite alookup_aremove_neq by (try apply zeq; exact N). reflexivity. Qed.
+
 Lemma CplC_new_client n i s : CplCg n s -> CplCg n (new_client i s).
-Proof. intros H. unfold new_client. cauto_cpl. Qed.
-Lemma CplC_upd_client n i c s : CplCg n s -> CplCg n (upd_client i c s).
-Proof. intros H. unfold upd_client. cauto_cpl. Qed.
+Proof.
+  intros H.
+  assert (CplCg n (set_used (Cl i :: used s) (set_clients (clients s ++ [(i, mkCl false 0 false false)]) s))) as H1.
+  { apply (CplC_change n n s); [reflexivity | | exact H]. sproj. intros j Hj. rewrite zb_app by reflexivity. exact Hj. }
+  unfold new_client. cbn zeta. apply CplC_poll_set. exact H1.
+Qed.
+
+(* an update that does not turn the client into a "removed" one *)
+Lemma CplC_upd_client n i c s :
+  antiz n -> (c_rm c = true -> zb i (clients s) = true) -> CplCg n s -> CplCg n (upd_client i c s).
+Proof.
+  intros HA K H. eapply (CplC_zanti n s); [exact HA | reflexivity | reflexivity | | exact H].
+  intros j. unfold upd_client. sproj. destruct (Z.eq_dec j i) as [->|N].
+  - rewrite zb_aset_eq. exact K.
+  - rewrite zb_aset_neq by exact N. auto.
+Qed.
+Lemma CplC_upd_client_false n i c s : antiz n -> c_rm c = false -> CplCg n s -> CplCg n (upd_client i c s).
+Proof. intros HA K. apply CplC_upd_client; [exact HA | congruence]. Qed.
+Lemma CplC_upd_client_copy n i c0 c s :
+  antiz n -> alookup Z.eqb i (clients s) = Some c0 -> c_rm c = c_rm c0 -> CplCg n s -> CplCg n (upd_client i c s).
+Proof. intros HA E K. apply CplC_upd_client; [exact HA|]. unfold zb. rewrite E. congruence. Qed.
 Lemma CplC_do_interrupt n b s : CplCg n s -> CplCg n (do_interrupt b s).
 Proof. intros H. unfold do_interrupt. cauto_cpl. Qed.
-#[export] Hint Resolve CplC_new_client CplC_upd_client CplC_do_interrupt : cplC.
+#[export] Hint Resolve CplC_new_client CplC_upd_client_false CplC_do_interrupt antiz_PIn antiz_PEx antiz_PNot : cplC.
+#[export] Hint Extern 1 (c_rm _ = false) => reflexivity : cplC.
 
 (* ---------- the closing set ---------------------------------------------------------------------------------- *)
-Lemma CplC_weaken (P Q : Z -> list Z -> Prop) s : (forall j, P j (closing s) -> Q j (closing s)) -> CplCg P s -> CplCg Q s.
-Proof. intros W [m [A [B C]]]. exists m. auto. Qed.
+Lemma CplC_weaken (P Q : Z -> list Z -> bool -> Prop) s :
+  (forall j, P j (closing s) (zb j (clients s)) -> Q j (closing s) (zb j (clients s))) -> CplCg P s -> CplCg Q s.
+Proof. intros W. apply CplC_change; [reflexivity | exact W]. Qed.
 
-Lemma CplC_set_closing (P Q : Z -> list Z -> Prop) v s :
-  (forall j, P j (closing s) -> Q j v) -> CplCg P s -> CplCg Q (set_closing v s).
-Proof. intros W [m [A [B C]]]. exists m. sproj. auto. Qed.
+Lemma CplC_set_closing (P Q : Z -> list Z -> bool -> Prop) v s :
+  (forall j z, P j (closing s) z -> Q j v z) -> CplCg P s -> CplCg Q (set_closing v s).
+Proof. intros W. apply CplC_change; [reflexivity|]. intros j. apply W. Qed.
 
 Lemma CplC_closing_append_mono i s : CplC s -> CplC (closing_append i s).
 Proof.
   intros H. unfold closing_append. destruct (zmem i (closing s)); [exact H|].
-  eapply CplC_set_closing; [|exact H]. unfold PIn. intros j Hj. apply in_app_iff. left; exact Hj.
+  eapply CplC_set_closing; [|exact H]. unfold PIn. intros j z [Hj Hz]. split; [apply in_app_iff; left; exact Hj | exact Hz].
 Qed.
 
-Lemma CplC_closing_append_fix i s : CplCg (PEx i) s -> CplC (closing_append i s).
+Lemma CplC_closing_append_fix i s : zb i (clients s) = false -> CplCg (PEx i) s -> CplC (closing_append i s).
 Proof.
-  intros H. unfold closing_append. destruct (zmem i (closing s)) eqn:E.
+  intros Hz H. unfold closing_append. destruct (zmem i (closing s)) eqn:E.
   - apply zmem_In in E. eapply CplC_weaken; [|exact H]. unfold PEx, PIn. intros j Hj.
     destruct (Z.eq_dec j i) as [->|N]; auto.
-  - eapply CplC_set_closing; [|exact H]. unfold PEx, PIn. intros j Hj. apply in_app_iff.
-    destruct (Z.eq_dec j i) as [->|N]; [right; left; reflexivity | left; auto].
+  - apply (CplC_change (PEx i) PIn s); [reflexivity | | exact H]. unfold PEx, PIn. sproj. intros j Hj. rewrite in_app_iff.
+    destruct (Z.eq_dec j i) as [->|N]; [split; [right; left; reflexivity | exact Hz] | destruct (Hj N); auto].
 Qed.
 
-Lemma CplC_delete_client (P Q : Z -> list Z -> Prop) i s :
-  (forall j, P j (closing s) -> Q j (zremove i (closing s))) -> CplCg P s -> CplCg Q (delete_client i s).
+Lemma CplC_delete_client (P Q : Z -> list Z -> bool -> Prop) i s :
+  (forall j z z', (j <> i -> z' = z) -> P j (closing s) z -> Q j (zremove i (closing s)) z') -> CplCg P s -> CplCg Q (delete_client i s).
 Proof.
   intros W H. unfold delete_client. cbn zeta.
-  apply CplC_set_clients. apply CplC_poll_remove. eapply CplC_set_closing; eauto.
+  set (R := fun (j : Z) (cl : list Z) (z : bool) => forall z', (j <> i -> z' = z) -> Q j cl z').
+  set (s2 := poll_remove (Cl i) (set_closing (zremove i (closing s)) s)).
+  assert (CplCg R s2) as H2.
+  { subst s2. apply CplC_poll_remove. apply (CplC_set_closing P R); [|exact H].
+    intros j z Hp z' Hz. eapply W; eauto. }
+  apply (CplC_change R Q s2); [reflexivity | | exact H2].
+  intros j Hr. sproj. apply Hr. intros N. apply zb_aremove_neq; exact N.
 Qed.
 
 Lemma CplC_delete_client_ex i s : CplC s -> CplCg (PEx i) (delete_client i s).
 Proof.
-  apply CplC_delete_client. unfold PIn, PEx. intros j Hj N. apply In_zremove_neq; assumption.
+  apply CplC_delete_client. unfold PIn, PEx. intros j z z' Hz [Hj Hz0] N. rewrite (Hz N). split; [apply In_zremove_neq; assumption | exact Hz0].
 Qed.
 Lemma CplC_delete_client_ex' i s : CplCg (PEx i) s -> CplCg (PEx i) (delete_client i s).
 Proof.
-  apply CplC_delete_client. unfold PEx. intros j Hj N. apply In_zremove_neq; auto.
+  apply CplC_delete_client. unfold PEx. intros j z z' Hz Hj N. rewrite (Hz N). destruct (Hj N) as [A B]. split; [apply In_zremove_neq; auto | exact B].
 Qed.
 Lemma CplC_delete_client_not i s : CplCg (PNot i) s -> CplC (delete_client i s).
 Proof.
-  apply CplC_delete_client. unfold PIn, PNot. intros j [N Hj]. apply In_zremove_neq; assumption.
+  apply CplC_delete_client. unfold PIn, PNot. intros j z z' Hz [N [Hj Hz0]]. rewrite (Hz N). split; [apply In_zremove_neq; assumption | exact Hz0].
 Qed.
 
 (* ---------- the events the monitor looks at ---------------------------------------------------------------------- *)
@@ -137,20 +202,20 @@ Qed.
 
 (* onClosed of client i / its removal settles what was owed for i *)
 Lemma CplC_settle e i s :
-  (e = EvRemoved (Cl i) \/ exists c, e = EvCb (Cl i) KClosed c) ->
+  (e = EvRemoved (Cl i) \/ e = EvDeferred (Cl i) \/ exists c, e = EvCb (Cl i) KClosed c) ->
   CplCg (PEx i) s -> CplC (log e s).
 Proof.
   intros He [m [A [B C]]]. exists (mkCm (zremove_all i (c_owed m)) None). sproj. unfold cmon_run in *. cbn [mon_run]. rewrite A.
   split.
-  - unfold cmon_step. rewrite B. destruct He as [->|[c ->]]; reflexivity.
-  - split; [reflexivity|]. cbn [c_owed]. intros j Hj. apply In_zremove_all in Hj. destruct Hj as [N Hj]. apply C; assumption.
+  - unfold cmon_step. rewrite B. destruct He as [->|[->|[c ->]]]; reflexivity.
+  - split; [reflexivity|]. cbn [c_owed]. intros j Hj. apply In_zremove_all in Hj. destruct Hj as [N Hj]. apply (C j Hj N).
 Qed.
 
 Lemma CplC_introret_false i s : CplC s -> CplCg (PNot i) (log (EvIntroRet i false) s).
 Proof.
   intros [m [A [B C]]]. exists (mkCm (zremove_all i (c_owed m)) None). sproj. unfold cmon_run in *. cbn [mon_run]. rewrite A.
   split; [unfold cmon_step; rewrite B; reflexivity|]. split; [reflexivity|]. cbn [c_owed].
-  intros j Hj. apply In_zremove_all in Hj. destruct Hj as [N Hj]. split; [exact N | apply C; exact Hj].
+  intros j Hj. apply In_zremove_all in Hj. destruct Hj as [N Hj]. split; [exact N | apply (C j Hj)].
 Qed.
 
 (* a read or a write (from the application) *)
@@ -177,7 +242,7 @@ Lemma CplC_check e s : ccheck e = true -> closing s = [] -> CplC s -> CplC (log 
 Proof.
   intros Hc Ecl [m [A [B C]]].
   assert (c_owed m = []) as Eo.
-  { destruct (c_owed m) as [|j l] eqn:E; [reflexivity|]. exfalso. specialize (C j (or_introl eq_refl)). unfold PIn in C. rewrite Ecl in C. exact C. }
+  { destruct (c_owed m) as [|j l] eqn:E; [reflexivity|]. exfalso. specialize (C j (or_introl eq_refl)). unfold PIn in C. rewrite Ecl in C. destruct C as [[] _]. }
   exists m. sproj. unfold cmon_run in *. cbn [mon_run]. rewrite A. split; [|auto].
   unfold cmon_step. rewrite B, Eo.
   destruct e; cbn in Hc; try discriminate; cbn; try reflexivity.
@@ -194,7 +259,7 @@ Lemma CplC_send_disp i n r s :
 Proof.
   intros Ecl [m [A [B C]]].
   assert (c_owed m = []) as Eo.
-  { destruct (c_owed m) as [|j l] eqn:E; [reflexivity|]. exfalso. specialize (C j (or_introl eq_refl)). unfold PIn in C. rewrite Ecl in C. exact C. }
+  { destruct (c_owed m) as [|j l] eqn:E; [reflexivity|]. exfalso. specialize (C j (or_introl eq_refl)). unfold PIn in C. rewrite Ecl in C. destruct C as [[] _]. }
   assert (cmon_run (trace (log (EvSend i n r true) s)) = Some (if failed_io r then mkCm (c_owed m) (Some i) else m)) as A'.
   { sproj. unfold cmon_run in *. cbn [mon_run]. rewrite A. unfold cmon_step. rewrite B, Eo. reflexivity. }
   destruct (failed_io r).
@@ -222,24 +287,34 @@ Qed.
 Lemma CplC_exec_action a s : CplC s -> CplC (exec_action a s).
 Proof.
   intros H. destruct a; cbn [exec_action];
-    [cauto_cpl | cauto_cpl | cauto_cpl | | cauto_cpl | cauto_cpl | cauto_cpl | cauto_cpl | | | cauto_cpl | cauto_cpl | cauto_cpl | cauto_cpl].
-  - (* ARmClient *) destruct (alookup Z.eqb i (clients s)) as [c|]; [|auto with cplC].
+    [cauto_cpl | cauto_cpl | | | cauto_cpl | cauto_cpl | cauto_cpl | cauto_cpl | | | | | cauto_cpl | cauto_cpl].
+  - (* APair *) destruct (fresh (Cl i) s); auto with cplC.
+  - (* ARmClient *) destruct (live_client i s) as [c|]; [|auto with cplC].
     destruct (c_cb c).
     + apply (CplC_settle _ i); [left; reflexivity|]. apply CplC_delete_client_ex; exact H.
-    + apply CplC_log; [reflexivity|]. apply CplC_closing_append_mono; exact H.
-  - (* AWrite *) destruct (alookup Z.eqb i (clients s)) as [c|]; [|auto with cplC].
-    destruct (n <? 1); [auto with cplC|]. destruct (c_back c =? 0); [|cauto_cpl].
+    + (* the removal is deferred: the client counts as removed from now on, nothing is owed for it any more *)
+      apply (CplC_settle _ i); [right; left; reflexivity|].
+      apply (CplC_change PIn (PEx i) s); [reflexivity | | exact H]. unfold PIn, PEx, upd_client. sproj. intros j Hj N.
+      rewrite zb_aset_neq by exact N. exact Hj.
+  - (* AWrite *) destruct (live_client i s) as [c|] eqn:E0; [apply live_client_some in E0; destruct E0 as [E Er]|auto with cplC].
+    assert (zb i (clients s) = false) as Hz by (unfold zb; rewrite E; exact Er).
+    rewrite Er. destruct (n <? 1); [auto with cplC|]. destruct (c_back c =? 0); [|cauto_cpl].
     cbn zeta. set (r := send_result n (next_send n s)).
     pose proof (CplC_io (EvSend i n r false) i r (drop_send s) (or_intror (ex_intro _ n eq_refl)) (CplC_drop_send _ s H)) as K.
     destruct (failed_io r).
-    + apply CplC_log; [reflexivity|]. apply CplC_closing_append_fix; exact K.
+    + apply CplC_log; [reflexivity|]. apply CplC_closing_append_fix; [exact Hz | exact K].
     + cauto_cpl.
-  - (* ARead *) destruct (alookup Z.eqb i (clients s)) as [c|]; [|auto with cplC].
+  - (* ARead *) destruct (live_client i s) as [c|] eqn:E0; [apply live_client_some in E0; destruct E0 as [E Er]|auto with cplC].
+    assert (zb i (clients s) = false) as Hz by (unfold zb; rewrite E; exact Er).
     cbn zeta. set (r := recv_result (next_recv s)).
     pose proof (CplC_io (EvRecv i r) i r (drop_recv s) (or_introl eq_refl) (CplC_drop_recv _ s H)) as K.
     destruct (failed_io r).
-    + apply CplC_log; [reflexivity|]. apply CplC_closing_append_fix; exact K.
+    + apply CplC_log; [reflexivity|]. apply CplC_closing_append_fix; [exact Hz | exact K].
     + auto with cplC.
+  - (* ASuspend *) destruct (live_client i s) as [c|] eqn:E0; [apply live_client_some in E0; destruct E0 as [E Er]|auto with cplC].
+    rewrite Er. cauto_cpl.
+  - (* AResume *) destruct (live_client i s) as [c|] eqn:E0; [apply live_client_some in E0; destruct E0 as [E Er]|auto with cplC].
+    rewrite Er. cauto_cpl.
 Qed.
 
 Lemma CplC_exec_actions l s : CplC s -> CplC (exec_actions l s).
@@ -268,7 +343,7 @@ Proof. intros E H. unfold callback. apply CplC_run_script. apply CplC_check; [re
 
 Lemma CplC_callback_closed i s : CplCg (PEx i) s -> CplC (callback (Cl i) KClosed s).
 Proof.
-  intros H. unfold callback. apply CplC_run_script. apply (CplC_settle _ i); [right; eexists; reflexivity | exact H].
+  intros H. unfold callback. apply CplC_run_script. apply (CplC_settle _ i); [right; right; eexists; reflexivity | exact H].
 Qed.
 
 Lemma CplC_timer_phase fuel now s : CplC s -> CplC (timer_phase fuel now s).
@@ -285,9 +360,14 @@ Proof.
   destruct (closing s) as [|i r] eqn:E; [exact H|].
   assert (SInv (set_closing r s)) as HI1 by (eapply SInv_closing_pop; eauto).
   assert (CplCg (PEx i) (set_closing r s)) as H1.
-  { eapply CplC_set_closing; [|exact H]. rewrite E. unfold PIn, PEx. intros j [Hj|Hj] N; [congruence | exact Hj]. }
-  sproj. destruct (alookup Z.eqb i (clients s)) as [c|] eqn:El; [destruct (c_cb c)|].
+  { eapply CplC_set_closing; [|exact H]. rewrite E. unfold PIn, PEx. intros j z [[Hj|Hj] Hz] N; [congruence | auto]. }
+  sproj. destruct (alookup Z.eqb i (clients s)) as [c|] eqn:El; [destruct (c_cb c); [|destruct (c_rm c) eqn:Erm]|].
   - apply IH; [apply SInv_callback; exact HI1 | apply CplC_callback_closed; exact H1].
+  - (* (dead code) a client whose removal was deferred: nothing is owed for it *)
+    apply IH; [apply SInv_delete_client; exact HI1|]. apply CplC_delete_client_not.
+    apply (CplC_change PIn (PNot i) s); [reflexivity | | exact H]. rewrite E. unfold PIn, PNot. sproj. intros j [Hj Hz].
+    assert (j <> i) as N by (intros ->; unfold zb in Hz; rewrite El in Hz; congruence).
+    destruct Hj as [Hj|Hj]; [congruence | auto].
   - apply IH; [apply SInv_log; apply SInv_delete_client; exact HI1|].
     apply (CplC_settle _ i); [left; reflexivity|]. apply CplC_delete_client_ex'; exact H1.
   - exfalso. apply (alookup_None Z.eqb zeq) in El. apply El. apply (si_closing _ HI). rewrite E. left; reflexivity.
@@ -297,7 +377,7 @@ Lemma closing_phase_empties fuel s : stuck (closing_phase fuel s) = false -> clo
 Proof.
   revert s. induction fuel as [|f IH]; intros s; cbn [closing_phase]; [sproj; discriminate|].
   destruct (closing s) as [|i r] eqn:E; [intros _; exact E|].
-  sproj. destruct (alookup Z.eqb i (clients s)) as [c|]; [destruct (c_cb c)|]; apply IH.
+  sproj. destruct (alookup Z.eqb i (clients s)) as [c|]; [destruct (c_cb c); [|destruct (c_rm c)]|]; apply IH.
 Qed.
 
 Lemma CplC_introduce e k i acc s : CplC s -> CplC (introduce e k i acc s).
@@ -308,22 +388,28 @@ Proof.
   set (s2 := run_script e (SIn k) (log (EvIntro e k i (clk s1)) s1)).
   assert (CplC s2) as H2 by (apply CplC_run_script; auto with cplC).
   destruct acc.
-  - destruct (alookup Z.eqb i (clients (log (EvIntroRet i true) s2))); auto with cplC.
+  - assert (CplC (log (EvIntroRet i true) s2)) as H3 by auto with cplC.
+    destruct (alookup Z.eqb i (clients (log (EvIntroRet i true) s2))) as [c|] eqn:E; [destruct (c_rm c) eqn:Erm|]; auto with cplC.
+    (* removed meanwhile: the deferred removal settled what was owed for it *)
+    apply CplC_delete_client_not. eapply CplC_weaken; [|exact H3]. unfold PIn, PNot. intros j [Hj Hz].
+    split; [|auto]. intros ->. unfold zb in Hz. rewrite E in Hz. congruence.
   - apply CplC_delete_client_not. apply CplC_introret_false. exact H2.
 Qed.
 
 Lemma CplC_dispatch_write i ar s : closing s = [] -> CplC s -> CplC (dispatch_write i ar s).
 Proof.
-  intros E H. unfold dispatch_write. destruct (alookup Z.eqb i (clients s)) as [c|]; [|exact H].
+  intros E H. unfold dispatch_write. destruct (alookup Z.eqb i (clients s)) as [c|] eqn:El; [|exact H].
   destruct (0 <? c_back c).
   - cbn zeta. set (r := send_result (c_back c) (next_send (c_back c) s)).
     pose proof (CplC_send_disp i (c_back c) r (drop_send s) E (CplC_drop_send _ s H)) as K.
     destruct (failed_io r).
     + unfold callback. apply CplC_run_script. apply CplCmust_closed. apply CplCmust_poll_remove.
       eapply CplCmust_frame; [|exact K]. reflexivity.
-    + destruct (c_back c - Z.max 0 r =? 0).
-      * apply CplC_callback_plain; [reflexivity|]. auto with cplC.
-      * destruct ar; [|auto with cplC]. apply CplC_callback_read; [exact E | auto with cplC].
+    + assert (forall b, CplC (upd_client i (mkCl (c_cb c) b (c_susp c) (c_rm c)) (log (EvSend i (c_back c) r true) (drop_send s)))) as HU.
+      { intros b. apply (CplC_upd_client_copy PIn i c); [apply antiz_PIn | exact El | reflexivity | exact K]. }
+      destruct (c_back c - Z.max 0 r =? 0).
+      * apply CplC_callback_plain; [reflexivity|]. apply CplC_poll_set. apply HU.
+      * destruct ar; [|apply HU]. apply CplC_callback_read; [exact E | apply HU].
   - cbn zeta. apply CplC_callback_plain; [reflexivity|]. auto with cplC.
 Qed.
 
@@ -363,7 +449,9 @@ Proof.
   - split; [auto with cplC|]. unfold do_interrupt. sproj. destruct (intr s); sproj; exact E.
   - destruct (absorb_frame_c (ep_ready it) (set_clk (clk (log (EvWait t) s) + ep_dt it) (log (EvItem false) (log (EvWait t) s)))) as (Ft & Fc).
     split; [|rewrite Fc; sproj; exact E].
-    eapply CplC_frame; [exact Ft | exact Fc |]. auto with cplC.
+    assert (clients (absorb (ep_ready it) (set_clk (clk (log (EvWait t) s) + ep_dt it) (log (EvItem false) (log (EvWait t) s)))) = clients s) as Fk
+      by (rewrite absorb_clients; reflexivity).
+    eapply CplC_frame; [exact Ft | exact Fc | exact Fk |]. auto with cplC.
 Qed.
 
 Lemma CplC_poll t items s :
@@ -380,8 +468,8 @@ Lemma CplC_run_loop fuel items s : SInv s -> CplC s -> CplC (run_loop fuel items
 Proof.
   revert items s. induction fuel as [|f IH]; intros items s HI H; cbn [run_loop]; [auto with cplC|].
   cbn zeta.
-  set (s0 := timer_phase f (clk s) (log (EvNow (clk s)) s)).
-  assert (SInv s0) as HI0 by (apply SInv_timer_phase; apply SInv_log; exact HI).
+  set (s0 := timer_phase f (clk s) (log (EvSel (sel_view (selected s))) (log (EvNow (clk s)) s))).
+  assert (SInv s0) as HI0 by (apply SInv_timer_phase; apply SInv_log; apply SInv_log; exact HI).
   assert (CplC s0) as H0 by (apply CplC_timer_phase; auto with cplC).
   set (s1 := closing_phase f s0).
   assert (SInv s1) as HI1 by (apply SInv_closing_phase; exact HI0).
